@@ -139,13 +139,17 @@ def failing_slot(fk, i, ignore):
         t = task(('include', 'incbad.rh'))
     elif fk == 9:
         t = task(('command', 'k%dloopfail' % i, '', 2), loop=[lit('x'), lit('y')], when=('eq', ('var', ['item']), ('str', 'y')))
+    elif fk == 11:
+        t = task(('command', 'k%dsig' % i, '', 1009))        # killed by SIGKILL: no exit status
+    elif fk == 12:
+        t = task(('command', 'k%dterm' % i, '', 1015), loop=[lit('x'), lit('y')], when=('eq', ('var', ['item']), ('str', 'x')))
     else:
         t = task(('include', 'missing.rh'))
     t["ignore"] = ignore
     return t
 
 
-NFAIL = 11
+NFAIL = 14
 TRUTH_LITS = [('list', 0), ('list', 2), ('map', 0), ('map', 1), ('num', 0), ('num', 3), ('bool', False), ('bool', True), ('str', 'x')]
 
 
